@@ -1194,14 +1194,45 @@ theorem inv_of_step (hC : C.candidates.Nodup) {st st2 : St α D} {te : Nat} {res
 def ExitState (st : St α D) : Prop :=
   Inv asn C cvrs winner st ∧ ∃ te rest, st.fr = te :: rest ∧ (st.store.get te).expandable = false
 
+/-- the exit state of the main loop with an `agap` test: the head is not expandable, or the test was true -/
+def ExitG (gap : Diff D → Diff D → Bool) (st : St α D) : Prop :=
+  Inv asn C cvrs winner st ∧ ∃ te rest, st.fr = te :: rest ∧
+    ((st.store.get te).expandable = false ∨ gapExit gap (maxEst st.store te rest) st.lb = true)
+
 /-- what the main loop returns: never an exception; an exit state, or "audit not possible" with a
 witness order -/
+def LoopOutG (gap : Diff D → Diff D → Bool) (res : Res (Option (St α D))) : Prop :=
+  match res with
+  | Res.ok (some st') => ExitG asn C cvrs winner gap st'
+  | Res.ok none => BadLeaf asn C cvrs winner
+  | Res.fuel => True
+  | Res.err _ => False
+
+/-- the same for `agap = 0` -/
 def LoopOut (res : Res (Option (St α D))) : Prop :=
   match res with
   | Res.ok (some st') => ExitState asn C cvrs winner st'
   | Res.ok none => BadLeaf asn C cvrs winner
   | Res.fuel => True
   | Res.err _ => False
+
+theorem exitG_noGap {st : St α D} (h : ExitG asn C cvrs winner noGap st) : ExitState asn C cvrs winner st := by
+  obtain ⟨hI, te, rest, hfr, h1 | h1⟩ := h
+  · exact ⟨hI, te, rest, hfr, h1⟩
+  · exfalso
+    cases hlb : st.lb with
+    | none => rw [hlb] at h1; simp [gapExit] at h1
+    | some l => rw [hlb] at h1; simp [gapExit, noGap] at h1
+
+theorem loopOutG_noGap {res : Res (Option (St α D))} (h : LoopOutG asn C cvrs winner noGap res) :
+    LoopOut asn C cvrs winner res := by
+  cases res with
+  | ok o =>
+    cases o with
+    | none => exact h
+    | some st => exact exitG_noGap asn C cvrs winner h
+  | fuel => trivial
+  | err e => exact h
 
 /-- some alternative order exists when there are at least two candidates -/
 theorem exists_alt (hC : C.candidates.Nodup) (hn : 2 ≤ C.candidates.length) :
@@ -1230,26 +1261,26 @@ theorem Phi_cons {st : St α D} {te : Nat} {rest : List Nat} (hfr : st.fr = te :
   rw [hfr]
   simp only [List.map_cons, List.sum_cons]
 
-theorem mainLoop_spec (hC : C.candidates.Nodup) (hn : 2 ≤ C.candidates.length) :
+theorem mainLoopG_spec (gap : Diff D → Diff D → Bool) (hC : C.candidates.Nodup) (hn : 2 ≤ C.candidates.length) :
     ∀ (fuel : Nat) (st : St α D) (r : Res (Option (St α D))),
-    mainLoop asn C (cvrs.filterMap id) (nebTable asn C cvrs) fuel st = r →
+    mainLoopG gap asn C (cvrs.filterMap id) (nebTable asn C cvrs) fuel st = r →
     Inv asn C cvrs winner st →
-    LoopOut asn C cvrs winner r ∧ (r = Res.fuel → fuel ≤ Phi C st) := by
+    LoopOutG asn C cvrs winner gap r ∧ (r = Res.fuel → fuel ≤ Phi C st) := by
   intro fuel
   induction fuel with
   | zero =>
-    intro st r h _; simp only [mainLoop] at h; subst h
+    intro st r h _; simp only [mainLoopG] at h; subst h
     exact ⟨trivial, fun _ => Nat.zero_le _⟩
   | succ fuel ih =>
     intro st r h hI
     -- a recursive call on a state of smaller measure
     have recurse : ∀ st2 : St α D, Inv asn C cvrs winner st2 → Phi C st2 < Phi C st →
-        mainLoop asn C (cvrs.filterMap id) (nebTable asn C cvrs) fuel st2 = r →
-        LoopOut asn C cvrs winner r ∧ (r = Res.fuel → fuel + 1 ≤ Phi C st) := by
+        mainLoopG gap asn C (cvrs.filterMap id) (nebTable asn C cvrs) fuel st2 = r →
+        LoopOutG asn C cvrs winner gap r ∧ (r = Res.fuel → fuel + 1 ≤ Phi C st) := by
       intro st2 hI2 hlt hrun
       obtain ⟨o1, o2⟩ := ih st2 r hrun hI2
       exact ⟨o1, fun hr => by have := o2 hr; omega⟩
-    rw [mainLoop] at h
+    rw [mainLoopG] at h
     split at h
     · rename_i hfr
       exfalso
@@ -1259,10 +1290,15 @@ theorem mainLoop_spec (hC : C.candidates.Nodup) (hn : 2 ≤ C.candidates.length)
     · rename_i te rest hfr
       simp only at h
       split at h
+      · -- exit: the `agap` test is true
+        rename_i hgap
+        subst h
+        exact ⟨⟨hI, te, rest, hfr, Or.inr hgap⟩, fun h => nomatch h⟩
+      split at h
       · -- exit: the first frontier node is not expandable
         rename_i hne
         subst h
-        exact ⟨⟨hI, te, rest, hfr, by simpa using hne⟩, fun h => nomatch h⟩
+        exact ⟨⟨hI, te, rest, hfr, Or.inl (by simpa using hne)⟩, fun h => nomatch h⟩
       · rename_i hne
         have hexp : (st.store.get te).expandable = true := by simpa using hne
         have hte : te < st.store.size := hI.fr.inRange te (by rw [hfr]; exact List.mem_cons_self)
@@ -1300,10 +1336,10 @@ theorem mainLoop_spec (hC : C.candidates.Nodup) (hn : 2 ≤ C.candidates.length)
               W C.candidates.length (C.candidates.length - (st.store.get te).tail.length - 1) < Phi C st →
             (if (expandLoop asn C (cvrs.filterMap id) (nebTable asn C cvrs) te C.candidates st1).1 = true
               then Res.ok none
-              else mainLoop asn C (cvrs.filterMap id) (nebTable asn C cvrs) fuel
+              else mainLoopG gap asn C (cvrs.filterMap id) (nebTable asn C cvrs) fuel
                 (expandLoop asn C (cvrs.filterMap id) (nebTable asn C cvrs) te C.candidates st1).2)
               = r →
-            LoopOut asn C cvrs winner r ∧ (r = Res.fuel → fuel + 1 ≤ Phi C st) := by
+            LoopOutG asn C cvrs winner gap r ∧ (r = Res.fuel → fuel + 1 ≤ Phi C st) := by
           intro st1 hte1 hok1 hF1 htail1 hexp1 hsc1 hexpl hnle hPhi1 hrun
           cases hr : expandLoop asn C (cvrs.filterMap id) (nebTable asn C cvrs) te C.candidates st1 with
           | mk r1 st2 =>
@@ -1436,6 +1472,15 @@ theorem mainLoop_spec (hC : C.candidates.Nodup) (hn : 2 ≤ C.candidates.length)
             refine expandCase ({ st with fr := rest } : St α D) hte hI.ok hF0 rfl hexp (fun π hsc => hsc) ?_ hnle (by omega) h
             intro π hπ hthru heff c hc1 hce
             exact absurd hc1 (heff c hce)
+
+/-- the main loop with `agap = 0` -/
+theorem mainLoop_spec (hC : C.candidates.Nodup) (hn : 2 ≤ C.candidates.length)
+    (fuel : Nat) (st : St α D) (r : Res (Option (St α D)))
+    (h : mainLoop asn C (cvrs.filterMap id) (nebTable asn C cvrs) fuel st = r)
+    (hI : Inv asn C cvrs winner st) :
+    LoopOut asn C cvrs winner r ∧ (r = Res.fuel → fuel ≤ Phi C st) := by
+  obtain ⟨h1, h2⟩ := mainLoopG_spec asn C cvrs winner noGap hC hn fuel st r h hI
+  exact ⟨loopOutG_noGap asn C cvrs winner h1, h2⟩
 
 end Loop
 end Shangrla.Raire
